@@ -23,7 +23,48 @@ structure St where
   cfg : Cfg := {}
   spec : SpecMap := []
   everOpened : Bool := false
+  -- C13 accounting, from the implementation's own `acct` views
+  acctCur : Option (List String) := none
+  acctFl : List String := []
+  acctEver : List String := []
+  acctLastOp : String := ""
+  acctLastRes : String := ""
+  acctSince : List String := []      -- mutating ops since the last acct view
+  -- C11 progress, from the implementation's own views
+  c11Marked : Bool := false
+  c11DeadP : List Nat := []          -- non-current primary files without live data at the mark
+  c11FreeI : List Nat := []          -- non-current index files no bucket points into at the mark
+  c11Round : Nat := 0
+  c11PReleasedAt : Option Nat := none
+  c11IReleasedAt : Option Nat := none
+  c11LastView : String := ""
+  c11LastDisk : String := ""
+  c11LastAcct : String := ""
+  c11Sizes : Option Nat := none
+  c11RoundDisks : List String := []  -- disk view at the end of each round
 deriving Repr
+
+def insertStr0 (x : String) : List String → List String
+  | [] => [x]
+  | y :: ys => if x < y then x :: y :: ys else y :: insertStr0 x ys
+
+def sortStr0 (l : List String) : List String := l.foldl (fun acc x => insertStr0 x acc) []
+
+/-- multiset difference on sorted-or-not string lists -/
+def msub (a b : List String) : List String := b.foldl (fun acc x => acc.erase x) a
+
+/-- all locations named by live index entries, as the model sees them -/
+def modelCur (m : Mem) (d : Disk) : List String :=
+  let bks := (m.buckets.keys ++ m.inext.keys ++ m.icur.keys).eraseDups
+  sortStr0 (bks.flatMap fun b => match idxRecords m d b with
+    | .ok (some rl) => rl.map fun e => s!"{e.blk.off}:{e.blk.size}"
+    | _ => [])
+
+def modelFl (m : Mem) (d : Disk) : List String :=
+  let parse := fun (f : Option Bytes) => match f with
+    | some data => (parseFreeList (data.length + 1) data []).1.map fun b => s!"{b.off}:{b.size}"
+    | none => []
+  sortStr0 (m.flpool.map (fun b => s!"{b.off}:{b.size}") ++ parse d.free ++ parse d.freeGc)
 
 def errStr : Err → String
   | .keyExists => "err:key-exists"
@@ -95,7 +136,7 @@ def cmp (op model impl : String) : List Msg := if model = impl then [] else [Msg
 def prop (op expected impl : String) : List Msg :=
   if expected = impl then [] else [Msg.prop s!"{op}: map specification says [{expected}] implementation returned [{impl}]"]
 
-def step (st : St) (l : Line) : St × List Msg :=
+def stepCore (st : St) (l : Line) : St × List Msg :=
   let ra := resArgs l.res
   let rhead := ((l.res.splitOn " ").headD "")
   match l.op with
@@ -115,7 +156,21 @@ def step (st : St) (l : Line) : St × List Msg :=
     let d := st.store.disk
     ({ st with store := { st.store with disk := { d with snap := d.snap.map fun s => { s with size := 16, nz := s.nz.filter (·.1 < 2) } } } },
       [Msg.flag "reopen-badsnap"])
-  | "disk" => (st, cmp "disk" (viewDisk st.store.disk) l.res)
+  | "disk" =>
+    let da := resArgs l.res
+    let sized : String → List (Nat × Nat) := fun s => (s.splitOn ",").filterMap fun e => match e.splitOn ":" with
+      | n :: sz :: _ => match n.toNat?, sz.toNat? with
+        | some n, some sz => some (n, sz)
+        | _, _ => none
+      | _ => none
+    let released : List (Nat × Nat) → List Nat → Bool := fun files set =>
+      set.all fun n => match files.find? (fun x => x.1 = n) with | some (_, sz) => sz == 0 | none => true
+    let st := { st with c11LastDisk := l.res }
+    let st := if st.c11Marked && st.c11PReleasedAt.isNone && !st.c11DeadP.isEmpty && released (sized (da.get "pfiles")) st.c11DeadP
+      then { st with c11PReleasedAt := some st.c11Round } else st
+    let st := if st.c11Marked && st.c11IReleasedAt.isNone && !st.c11FreeI.isEmpty && released (sized (da.get "ifiles")) st.c11FreeI
+      then { st with c11IReleasedAt := some st.c11Round } else st
+    (st, cmp "disk" (viewDisk st.store.disk) l.res)
   | _ =>
   match st.store.mem with
   | none => (st, [Msg.corr s!"{l.op}: model store is closed"])
@@ -269,10 +324,86 @@ def step (st : St) (l : Line) : St × List Msg :=
           (if reloc then [Msg.flag "pgc-relocated"] else []) ++
           (if r.out = .deadline then [Msg.flag "gc-deadline"] else []) ++
           (if d'.phdr ≠ d.phdr then [Msg.flag "pgc-unlinked"] else []))
+    | "acct" =>
+      let cur := ((ra.get "cur").splitOn ",").filter (· ≠ "")
+      let fl := ((ra.get "fl").splitOn ",").filter (· ≠ "")
+      let corr := cmp "acct" s!"cur={",".intercalate (modelCur m d)} fl={",".intercalate (modelFl m d)}" l.res
+      -- oracle on the implementation's own views
+      let tag := s!"after {st.acctLastOp}: "
+      let props := match st.acctCur with
+        | none => []
+        | some prevCur =>
+          let superseded := prevCur.filter (fun x => !cur.contains x)
+          let recorded := msub fl st.acctFl
+          let consumed := msub st.acctFl fl
+          let isGC := st.acctSince.contains "pgc"
+          let onlyGC := st.acctSince = ["pgc"]
+          (if fl.eraseDups.length = fl.length then [] else [Msg.prop (tag ++ "a location is on the freelist twice")]) ++
+          (if recorded.all (fun x => !st.acctEver.contains x) then [] else [Msg.prop (tag ++ s!"a location is recorded on the freelist a second time: {recorded.filter (st.acctEver.contains ·)}")]) ++
+          (if fl.all (fun x => !cur.contains x) then [] else [Msg.prop (tag ++ s!"a location that is still current is on the freelist: {fl.filter (cur.contains ·)}")]) ++
+          (if isGC then
+             -- relocation supersedes locations; a complete cycle presents everything that was recorded before it
+             (if sortStr0 recorded = sortStr0 superseded then [] else [Msg.prop (tag ++ s!"relocated-from locations {superseded} but recorded {recorded}")]) ++
+             (if onlyGC ∧ st.acctLastRes.startsWith "ok" ∧ !(consumed.length = st.acctFl.length) then
+                [Msg.prop (tag ++ s!"a complete GC cycle did not consume recorded locations {msub st.acctFl consumed}")] else [])
+           else
+             (if consumed.isEmpty then [] else [Msg.prop (tag ++ s!"recorded locations vanished without a GC cycle: {consumed}")]) ++
+             (if sortStr0 recorded = sortStr0 superseded then [] else
+                [Msg.prop (tag ++ s!"locations {superseded} stopped being current but {recorded} were recorded on the freelist")]))
+      ({ st with acctCur := some cur, acctFl := fl, acctEver := (st.acctEver ++ fl).eraseDups, acctSince := [], c11LastAcct := l.res }, corr ++ props ++ [Msg.flag "acct"] ++
+        (if fl.isEmpty then [] else [Msg.flag "freelist-nonempty"]))
     | "sizes" =>
       let ms := s!"index={indexStorage d} primary={primaryStorage m.kind d} freelist={freelistStorage d}"
-      (st, cmp "sizes" ms l.res)
-    | "view" => (st, cmp "view" (viewState m) l.res)
+      let total := ra.nat "index" + ra.nat "primary" + ra.nat "freelist"
+      let grow := match st.c11Sizes with
+        | some before =>
+          if (st.acctLastOp = "pgc" ∨ st.acctLastOp = "igc") ∧ st.acctSince.getLast? = some st.acctLastOp ∧ total > before then
+            [Msg.prop s!"{st.acctLastOp} increased the reported storage from {before} to {total} bytes (nothing was pending before the cycle)"]
+          else []
+        | none => []
+      ({ st with c11Sizes := some total }, cmp "sizes" ms l.res ++ (if st.c11Marked then grow else []))
+    | "c11mark" =>
+      -- from the implementation's last views: which non-current files hold no live data / are unreferenced
+      let va := resArgs st.c11LastView
+      let da := resArgs st.c11LastDisk
+      let aa := resArgs st.c11LastAcct
+      let pfs := if st.cfg.pfs = 0 then defaultMax else st.cfg.pfs
+      let ifs := if st.cfg.ifs = 0 then defaultMax else st.cfg.ifs
+      let fileNums := fun (s : String) => (s.splitOn ",").filterMap fun e => ((e.splitOn ":").headD "").toNat?
+      let pfiles := fileNums (da.get "pfiles")
+      let ifiles := fileNums (da.get "ifiles")
+      let pcur := pfiles.foldl max 0
+      let icur := ifiles.foldl max 0
+      let liveP := ((aa.get "cur").splitOn ",").filterMap fun e => (((e.splitOn ":").headD "").toNat?).map (· / pfs)
+      let refI := ((va.get "buckets").splitOn ",").filterMap fun e => match e.splitOn ":" with
+        | [_, p] => (p.toNat?).map fun pos => (pos - 4) / ifs
+        | _ => none
+      ({ st with c11Marked := true, c11DeadP := pfiles.filter (fun n => n < pcur ∧ !liveP.contains n),
+                 c11FreeI := ifiles.filter (fun n => n < icur ∧ !refI.contains n), c11Round := 0 },
+        [Msg.flag "c11"] ++ (if (pfiles.filter (fun n => n < pcur ∧ !liveP.contains n)).isEmpty then [] else [Msg.flag "c11-dead-primary-files"]) ++
+        (if (ifiles.filter (fun n => n < icur ∧ !refI.contains n)).isEmpty then [] else [Msg.flag "c11-unreferenced-index-files"]))
+    | "c11round" =>
+      ({ st with c11Round := l.args.nat "n", c11RoundDisks := if l.args.nat "n" = 0 then [] else st.c11RoundDisks ++ [st.c11LastDisk] }, [])
+    | "c11end" =>
+      let disks := st.c11RoundDisks ++ [st.c11LastDisk]
+      let n := disks.length
+      let fixedPoint := n ≥ 2 ∧ disks.getD (n - 1) "" = disks.getD (n - 2) "x"
+      let pr := (match st.c11PReleasedAt with
+        | some r => if r ≤ 1 then [] else [Msg.prop s!"primary files {st.c11DeadP} held no live data after the flush but were released only after {r + 1} GC cycles (bound 2)"]
+        | none => if st.c11DeadP.isEmpty then [] else [Msg.prop s!"primary files {st.c11DeadP} held no live data after the flush and are still not released after {n} GC cycles: [{(resArgs st.c11LastDisk).get "pfiles"}]"]) ++
+        (match st.c11IReleasedAt with
+        | some r => if r ≤ 1 then [] else [Msg.prop s!"index files {st.c11FreeI} were unreferenced but were released only after {r + 1} index GC cycles (bound 2)"]
+        | none => if st.c11FreeI.isEmpty then [] else [Msg.prop s!"index files {st.c11FreeI} are unreferenced and still not released after {n} index GC cycles: [{(resArgs st.c11LastDisk).get "ifiles"}]"]) ++
+        (if fixedPoint then [] else [Msg.prop s!"repeated GC cycles on an unchanged store did not reach a fixed point within {n} rounds"])
+      (st, pr ++ (match st.c11PReleasedAt with | some r => [Msg.flag s!"c11-primary-released-after-{r + 1}"] | none => []) ++
+                 (match st.c11IReleasedAt with | some r => [Msg.flag s!"c11-index-released-after-{r + 1}"] | none => []))
+    | "view" => ({ st with c11LastView := l.res }, cmp "view" (viewState m) l.res)
     | _ => (st, [Msg.corr s!"unknown op {l.op}"])
+
+def step (st : St) (l : Line) : St × List Msg :=
+  let (st', msgs) := stepCore st l
+  if l.op = "acct" ∨ l.op = "view" ∨ l.op = "disk" ∨ l.op = "get" ∨ l.op = "has" ∨ l.op = "size" ∨ l.op = "sizes" then (st', msgs)
+  else ({ st' with acctLastOp := l.op, acctLastRes := l.res, acctSince := st'.acctSince ++ [l.op],
+                   acctCur := if l.op = "close" ∨ l.op = "open" ∨ l.op = "paths" then none else st'.acctCur }, msgs)
 
 end Driver.Seq
